@@ -79,6 +79,11 @@ def gen(rng, ctx):
     eps = None
     if rng.random() < 0.4 and outs:
         eps = rng.sample(outs, rng.randint(1, len(outs)))
+        if rng.random() < 0.3:
+            # compared endpoints need not be outputs
+            inner = [x for x in nodes if tps[x] in G.ALL_GATES and x not in eps]
+            if inner:
+                eps = eps + rng.sample(inner, 1)
         if len(eps) == 1 and rng.random() < 0.5:
             eps = eps[0]
     assume = {}
